@@ -245,12 +245,17 @@ func (s *socket) NewDialer(addr string, options map[string]interface{}) (mangos.
 	if err != nil {
 		return nil, err
 	}
+	// The socket level defaults are written by SetOption under the lock.
+	s.Lock()
+	reconnMinTime, reconnMaxTime := s.reconnMinTime, s.reconnMaxTime
+	dialAsynch, maxRxSize := s.dialAsynch, s.maxRxSize
+	s.Unlock()
 	d := &dialer{
 		d:             td,
 		s:             s,
-		reconnMinTime: s.reconnMinTime,
-		reconnMaxTime: s.reconnMaxTime,
-		asynch:        s.dialAsynch,
+		reconnMinTime: reconnMinTime,
+		reconnMaxTime: reconnMaxTime,
+		asynch:        dialAsynch,
 		addr:          addr,
 	}
 	for n, v := range options {
@@ -270,7 +275,7 @@ func (s *socket) NewDialer(addr string, options map[string]interface{}) (mangos.
 		}
 	}
 	if _, ok := options[mangos.OptionMaxRecvSize]; !ok {
-		err = td.SetOption(mangos.OptionMaxRecvSize, s.maxRxSize)
+		err = td.SetOption(mangos.OptionMaxRecvSize, maxRxSize)
 		if err != nil && err != mangos.ErrBadOption {
 			return nil, err
 		}
@@ -320,7 +325,10 @@ func (s *socket) NewListener(addr string, options map[string]interface{}) (mango
 		}
 	}
 	if _, ok := options[mangos.OptionMaxRecvSize]; !ok {
-		err = tl.SetOption(mangos.OptionMaxRecvSize, s.maxRxSize)
+		s.Lock()
+		maxRxSize := s.maxRxSize // written by SetOption under the lock
+		s.Unlock()
+		err = tl.SetOption(mangos.OptionMaxRecvSize, maxRxSize)
 		if err != nil && err != mangos.ErrBadOption {
 			return nil, err
 		}
